@@ -85,7 +85,8 @@ def search(run, info):
         if ms:
             picked = rng.sample(ms, min(len(ms), 2))
             # faults whose detection depends on what is in scope are the ones an order dependence would show on
-            picked += [m for m in ms if "without VAR_EXTERNAL" in m[1] or "which only" in m[1] or "used as a variable" in m[1]][:3]
+            picked += [m for m in ms if "without VAR_EXTERNAL" in m[1] or "which only" in m[1] or "used as a variable" in m[1]
+                       or "declared without CONSTANT" in m[1]][:4]
             for code, what, mu in picked:
                 variants.append(("single-fault", code, mu))
         for kind, code, unit in variants:
